@@ -245,6 +245,16 @@ CORPUS = [
     "K3 C2 sub,0,1 sub,0,2 sub,0,3 sub,0,4 acc,0 acc,1 acc,2 uns,0,5,1001 sub,0,6 dr,1,0 sub,0,7 cd,0 acc,3 sub,1,8",
     "K1 C1 sub,0,1 cd,0 acc,0 sub,0,2",
     "K2 C1 sub,0,1 sub,0,2 stop acc,0 snd,0,0,1 rej,1,3 snd,0,0,2 isc,0,0",
+    # minimised witnesses of defects / seeded mutations, kept so that they are reported again if they return
+    "K2 C1 sub,0,1 acc,0 cl,0,0,1 dr,0,1 uns,0,2,1000",       # C06 sink-clone-dropped (fixed by fixes/C06.patch)
+    "K1 C2 sub,0,2 acc,0 uns,0,5,1000 uns,0,6,1000",          # unsubscribe that does not remove the entry
+    "K1 C1 sub,0,2 sub,0,3",                                  # cap off by one
+    "K2 C1 sub,0,1 acc,0 uns,0,2,1000 snd,0,0,8",             # send without the closed check
+    "K2 C1 sub,0,1 acc,0 uns,0,2,1000 isc,0,0",
+    "K1 C1 sub,0,1 rej,0,1 sub,0,2",                          # permit leaked on reject
+    "K1 C1 sub,0,1 ret,0,n,0 sub,0,2",
+    "K1 C1 sub,0,1 acc,0 dr,0,0 sub,0,2",
+    "K1 C1 sub,0,1 acc,0 uns,0,2,1000 sub,0,3 dr,0,0 sub,0,4",
 ]
 
 
@@ -252,7 +262,7 @@ def gen_cases(ctx):
     """Returns [(line, tag)].  Deterministic in ctx.rng."""
     rng = ctx.rng
     cases = [(l, "corpus") for l in CORPUS]
-    n_rand = ctx.scale(420, 14000)
+    n_rand = ctx.scale(1200, 14000)
     for _ in range(n_rand):
         cap = rng.choice([0, 1, 1, 2, 2, 3])
         nconns = rng.choice([1, 2, 2])
@@ -269,7 +279,7 @@ def gen_cases(ctx):
             c = rng.randrange(nconns)
             cases.append((line_of(cap, nconns, inject_drop(steps, p, c)), "random+drop"))
     # many subscriptions, interleaved sends / unsubscribes / stop (C04)
-    for _ in range(ctx.scale(60, 1500)):
+    for _ in range(ctx.scale(150, 1500)):
         nconns = rng.choice([1, 2])
         steps = random_script(rng, 3, nconns, rng.choice([30, 50]), p_cd=0.02, p_stop=0.03)
         cases.append((line_of(3, nconns, steps), "long"))
@@ -277,7 +287,7 @@ def gen_cases(ctx):
     for cap in (0, 1, 2):
         for nconns in (1, 2):
             depth = ctx.scale(3, 4) if cap else 2
-            lim = ctx.scale(60, 6000)
+            lim = ctx.scale(150, 6000)
             for steps in exhaustive_short(cap, nconns, depth, limit=lim, rng=rng):
                 cases.append((line_of(cap, nconns, steps), "exhaustive-short"))
     return cases
@@ -551,8 +561,9 @@ def oracles(line, out_text):
     return res
 
 
-def shrink(line, key, prop, budget=120):
-    """Greedy step removal while the same oracle failure key persists on the implementation."""
+def shrink(line, key, prop, budget=2500):
+    """Greedy step removal while the same oracle failure key persists on the implementation.
+    Returns (shrunk line, oracle detail on the shrunk line)."""
     cap, nconns, steps = parse_line(line)
     cur = steps
     tries = 0
@@ -568,7 +579,30 @@ def shrink(line, key, prop, budget=120):
                 cur = cand
                 changed = True
                 break
-    return line_of(cap, nconns, cur)
+    final = line_of(cap, nconns, cur)
+    out = run_impl([final])[0]
+    detail = next((d for k, d in oracles(final, out)[prop] if k == key), None)
+    return final, detail
+
+
+def report_oracle_failures(ctx, prop, found):
+    """found: [(key, line, tag, detail)].  Per key the shortest failing script is shrunk and reported first (it becomes
+    the replay), the others follow unshrunk."""
+    by_key = {}
+    for key, line, tag, detail in found:
+        by_key.setdefault(key, []).append((line, tag, detail))
+    for n, (key, lst) in enumerate(sorted(by_key.items())):
+        lst.sort(key=lambda t: len(t[0]))
+        line, tag, detail = lst[0]
+        if n < 6:
+            try:
+                sl, sd = shrink(line, key, prop)
+                if sd is not None:
+                    ctx.fail("oracle", key, {"line": sl, "tag": tag, "original": line}, sd)
+            except Exception as e:  # noqa
+                ctx.note("shrink failed for %s: %r" % (key, e))
+        for line, tag, detail in lst[:200]:
+            ctx.fail("oracle", key, {"line": line, "tag": tag}, detail)
 
 
 def replay_case(payload, prop):
